@@ -47,6 +47,10 @@ def ffi_cfg(variant):
     return 'SPECIFICATION Spec\nCONSTANT Variant = "%s"\nINVARIANT Frame\n%sCHECK_DEADLOCK FALSE\n' % (variant, "INVARIANT Emit\n" if variant == "none" else "")
 
 
+SALSA_IN = ("7e879a214f3ec9867ca940e641718f26baee555b8c61c1b50df846116dcd3b1dee24f319df9b3d8514121e4b5ac5aa3276021d2909c74829edebc68db8b8c25e")
+SALSA_OUT = ("a41f859c6608cc993b81cacb020cef05044b2181a2fd337dfd7b1c6396682f29b4393168e3c9e6bcfe6bc5b7a06d96bae424cc102c91745c24ad673dc7618f81")
+
+
 def c18(pid, tier, seed, selftest=False):
     rep = Report(pid, tier, seed)
     rep.rule = ("call shapes {password length 0,1,7,64,65} x {salt length 0,3,16,33} x N in {2,4,16,1024} x r in {1,2,4} x p in {1,2,3} x "
@@ -85,6 +89,21 @@ def c18(pid, tier, seed, selftest=False):
         rep.case(json.dumps(s, sort_keys=True), s["call"]["pwlen"] != s["call"]["saltlen"] or s["call"]["dklen"] != 32)
     rep.sample(scen[0])
     run_prims(rep, pid, "ffi", scen, tpl, seed, ["C18_"], nproc=16)
+    # RFC 7914 itself, as far as it is structure: the term of Scrypt7914.tla (PBKDF2 over HMAC, ROMix, BlockMix, Integerify
+    # over the Salsa20/8 core) evaluated with the tree's hmac_sha256 / Salsa20/8 against the tree's scrypt()
+    sres = run_tlc(pid, "scrypt7914", "Scrypt7914", "SPECIFICATION Spec\nINVARIANT WellFormed\nINVARIANT Emit\nCHECK_DEADLOCK FALSE\n",
+                   workers=1, timeout=600, xmx="6g")
+    rep.add_model("scrypt7914", sres, "RFC 7914 sections 4-6 as terms over HMAC and the Salsa20/8 core for every case of the grid; emits the terms")
+    if sres.violated:
+        raise ToolError("Scrypt7914 violates " + sres.violated)
+    sc = sres.replays
+    if not thorough:
+        sc = [r for i, r in enumerate(sc) if i % 4 == 0]
+    rscen = [{"op": "rfc", "id": "s7914.%d" % i, "kind": "scrypt", "c": r["c"], "term": r["term"]} for i, r in enumerate(sc)]
+    for s in rscen:
+        rep.case(json.dumps(s["c"], sort_keys=True), True)
+    run_prims(rep, pid, "rfc7914", rscen, tpl, seed, ["C18_"], nproc=16)
+    rep.extra["rfc7914_structural_cases"] = len(rscen)
     # supplementary reference comparison
     rnd = random.Random(seed)
     cases = []
@@ -100,6 +119,8 @@ def c18(pid, tier, seed, selftest=False):
             want = hashlib.scrypt(pw, salt=salt, n=n, r=r, p=p, dklen=dk, maxmem=128 * 1024 * 1024).hex()
             cases.append(({"op": "prim", "id": "o%d.%d" % (i, j), "fn": "scrypt", "password": pw.hex(), "salt": salt.hex(), "n": n, "r": r, "p": p,
                            "len": dk, "ref": "OpenSSL scrypt via hashlib"}, want))
+    # the leaf: Salsa20/8 core, RFC 7914 section 8
+    cases.append(({"op": "prim", "id": "salsa", "fn": "salsa20_8", "block": SALSA_IN, "ref": "RFC 7914 section 8"}, SALSA_OUT))
     evs = oracle_events(pid, tpl, seed, cases)
     validate_list(rep, pid, "oracle", evs, ["C18_"])
     for e in evs:
